@@ -217,8 +217,8 @@ func liveSnapshot(layersdir string, helpers map[string]bool) ([]procSnap, error)
 
 func runLive(in Input) (*common.Case, error) {
 	base, conf := MP+"/b", MP+"/lc.conf"
-	os.RemoveAll(base)
-	defer os.RemoveAll(base)
+	cleanBase()
+	defer cleanBase()
 	os.Unsetenv("LAYERROOT")
 	os.Unsetenv("LAYERCONF")
 	fs.MessageWriter = io.Discard
@@ -242,7 +242,7 @@ func runLive(in Input) (*common.Case, error) {
 		hs = append(hs, h)
 		pids[strconv.Itoa(h.cmd.Process.Pid)] = true
 	}
-	snap, err := liveSnapshot(cfg.Layerdirs, pids)
+	snap, err := liveSnapshot(realDir(cfg.Layerdirs), pids)
 	if err != nil {
 		return nil, err
 	}
@@ -289,7 +289,7 @@ func runLive(in Input) (*common.Case, error) {
 }
 
 func genLive(r *rng.R) Input {
-	inp := Input{LayersName: "layers", Dirs: defaultDirs, Live: true, Churn: 4}
+	inp := Input{LayersName: "layers", Dirs: defaultDirs, Live: true, Churn: 4, BaseLink: r.Chance(1, 3)}
 	fam := nameFamilies[r.Intn(3)]
 	n := 1 + r.Intn(3)
 	for i := 0; i < n; i++ {
